@@ -9,6 +9,9 @@
 (*  encdet     iP applied to the encoded determinant x (bits recorded from  *)
 (*             get_mapped_vector) gives the penalty value of the            *)
 (*             determinant occ (diagonal penalties)                         *)
+(*  fockgen    a FERMIONIC generator (element of an operator pool, row of an *)
+(*             excitation table) commutes with the first-principles N, Sz   *)
+(*             (and S^2 where listed in kinds) on every determinant         *)
 (*  gen        generator G of one ansatz parameter commutes with every      *)
 (*             recorded symmetry image in S                                 *)
 (*  block      block condition on the word order of a built circuit         *)
@@ -53,6 +56,10 @@ Verdict(j) ==
                      val == PenaltyValueFrom(j.parts, OccSet(j.dets[a].occ), j.n, j.utd, Len(j.parts))
                  IN ApplyOp(iP, Basis(x0, j.nq), j.nq) = ScaleVec(val, Basis(x0, j.nq), Dim(j.nq))
             THEN "ok" ELSE "encoded-penalty-value-wrong"
+    [] j.k = "fockgen" -> IF FockGeneratorConserves(j.f, {j.kinds[x] : x \in 1..Len(j.kinds)}, j.n, j.utd) THEN "ok"
+                          ELSE IF ~FockGeneratorConserves(j.f, {"N"}, j.n, j.utd) THEN "generator-changes-N"
+                          ELSE IF ~FockGeneratorConserves(j.f, {"Sz"}, j.n, j.utd) THEN "generator-changes-Sz"
+                          ELSE "generator-changes-S2"
     [] j.k = "gen" -> IF \A s \in 1..Len(j.S) : GeneratorCommutes(Q(j.G), Q(j.S[s].op), j.nq) THEN "ok" ELSE "generator-does-not-commute"
     [] j.k = "block" -> IF BlockCondition(j.words, j.cw, TLCEval([s \in 1..Len(j.S) |-> Q(j.S[s].op)]), j.nq)
                         THEN "ok" ELSE "block-condition-fails"
